@@ -6,7 +6,29 @@ import os
 VERIF = os.path.dirname(os.path.dirname(os.path.abspath(__file__)))
 
 # property id -> (category, technique, level text, level note, design ref)
+TECH = 'Lean 4 theorems on a hand-written model + differential correspondence check + property probe'
+NOTE = 'Trusted: Lean kernel + {propext, Classical.choice, Quot.sound} (audited per theorem on every run); the hand-written model is tied to the C++ by a seeded differential test, not by proof; '
 CLAIMED = {
+    'C16': ('proof', TECH,
+            'For EVERY history of updates/resets, window size and multiplier (unbounded, by induction): the stored window is exactly the last '
+            'min(n,W) truncated samples since the last reset, the running sums are their exact sums (no drift), availability <-> n >= W, the '
+            'variance formula equals the unbiased sample variance of the window, no 64-bit/32-bit overflow on the property\'s domain; the ring '
+            'holds min(n,cap) items and get k is the k-th most recent for every capacity, also after clear (64-bit unsigned index arithmetic '
+            'modelled). Theorems in RomeaProofs/Properties/C16.lean; model tied to OnlineAverage/OnlineVariance/RingOfEigenVector by exact '
+            'differential runs of op sequences (integer state compared exactly, doubles within 4 ulp).',
+            NOTE + 'the double->long long conversion and the final floating-point divisions are executed (at Float) and compared, not proved; '
+            'harness reads protected members through subclasses.',
+            'DESIGN.md section 6, C16'),
+    'C03': ('proof', TECH,
+            'Over exact reals with every partial operation guarded (RN): origin -> false origin, central meridian -> x = x0, scale 1 on both '
+            'standard parallels / k0 on the tangent parallel, conformality (HasDerivAt of the isometric latitude; orthogonal images, equal '
+            'meridian/parallel scale) for either sign of the cone constant, inverse longitude and isometric latitude for both hemispheres, the '
+            'latitude loop contracts and the round trip returns the latitude within 1e-13 rad for e <= 0.1 (fuel >= 8). 25 theorems in '
+            'RomeaProofs/Properties/C03.lean; model tied to LambertConverter by differential runs over the French zones and random cones of '
+            'both hemispheres; probe checks round trip 1e-11 rad, finite-difference conformality and scale.',
+            NOTE + 'libm functions are taken as the mathematical functions; floating-point rounding is covered only by the correspondence check '
+            'and the probe.',
+            'DESIGN.md section 6, C03'),
     'C18': ('proof', 'Lean 4 theorems on a hand-written model + differential correspondence check + boundary probe',
             'Threshold laws (|v-t|<=eps, v>t-eps, v<t+eps, reliability bands), report consistency over every history of '
             'evaluations/timeouts, the status lattice (commutative, associative, idempotent, = max), worst-of-list = maximum, allOK '
